@@ -435,6 +435,8 @@ fn main() {
 
     // ---- degenerate shapes, always present
     degenerate_suite(&mut run, &mut rng);
+    stateful_suite(&mut run, &mut rng, if deep { 40 } else { 6 });
+    maxsize_suite(&mut run, &mut rng, deep);
 
     // ---- Sinkhorn on learned abstractions with generated metrics
     let n_metrics = if deep { 120 } else { 24 };
@@ -625,7 +627,7 @@ fn main() {
     }
 
     run.rule = format!(
-        "degenerate suite in every tier (point masses incl. buckets 0/50/100 and mass 1 vs 46, 1-vs-1, 1-vs-many, identical, far-apart disjoint blocks; all ordered pairs and all triples) through Metric::emd, Equity::variation, Sinkhorn and the greedy plan; {} generated metrics (Euclidean 2-D, line, random symmetric, clustered nearly-degenerate, discrete, one-far-pair) over 4..160 learned abstractions, each with {} Sinkhorn instances (support sizes 1..100; uniform/geometric/dominant/random/bimodal masses; every third also as a self-distance) and greedy instances (half with disjoint supports); Sinkhorn on river buckets; {} equity histogram triples (supports 1..101); exhaustive abstraction layout 4x4096; Histogram::from ordering. Exact OT (f64 min-cost flow, dual-certified) on every Sinkhorn/greedy instance. distinct = distinct op lines with support > 1",
+        "mutate-then-re-measure sequences on the same Histogram objects (emd, absorb, emd; clone then absorb; increment/set between measurements; triangle through an absorbed histogram) for Percent and Learned; supports at the real maxima (129..144 turn buckets as source and target, 101 equity buckets); degenerate suite in every tier (point masses incl. buckets 0/50/100 and mass 1 vs 46, 1-vs-1, 1-vs-many, identical, far-apart disjoint blocks; all ordered pairs and all triples) through Metric::emd, Equity::variation, Sinkhorn and the greedy plan; {} generated metrics (Euclidean 2-D, line, random symmetric, clustered nearly-degenerate, discrete, one-far-pair) over 4..160 learned abstractions, each with {} Sinkhorn instances (support sizes 1..100; uniform/geometric/dominant/random/bimodal masses; every third also as a self-distance) and greedy instances (half with disjoint supports); Sinkhorn on river buckets; {} equity histogram triples (supports 1..101); exhaustive abstraction layout 4x4096; Histogram::from ordering. Exact OT (f64 min-cost flow, dual-certified) on every Sinkhorn/greedy instance. distinct = distinct op lines with support > 1",
         n_metrics, per_metric, n_eq);
     run.finish();
 }
@@ -677,6 +679,106 @@ fn emd_case(run: &mut Run, tag: &str, x: &Histogram, y: &Histogram, metric: &Met
         }
     }
     Some(v)
+}
+
+/// measure, mutate the SAME histogram object, measure again: the distance must be that of the
+/// histogram's current contents (no dependence on earlier calls), for absorb / clone / increment / set
+fn stateful_suite(run: &mut Run, rng: &mut Rng, rounds: usize) {
+    let river: Vec<Abstraction> = (0..=100).map(|i| Abstraction::from((Street::Rive, i))).collect();
+    let turn: Vec<Abstraction> = (0..16).map(|i| Abstraction::from((Street::Turn, i * 5 + 2))).collect();
+    let mut raw = BTreeMap::new();
+    for i in 0..16usize { for j in 0..i { raw.insert(Pair::from((&turn[i], &turn[j])), (i - j) as f32); } }
+    let line = Metric::from(raw);
+    let none = Metric::default();
+    for r in 0..rounds {
+        for learned in [false, true] {
+            let (uni, metric, tag): (&Vec<Abstraction>, &Metric, &str) = if learned { (&turn, &line, "stateful-learned") } else { (&river, &none, "stateful-percent") };
+            let u = uni.len();
+            let blk = |rng: &mut Rng, lo: usize, w: usize| -> Histogram {
+                let sup: Vec<Abstraction> = (lo..(lo + w).min(u)).map(|k| uni[k]).collect();
+                let cs: Vec<usize> = sup.iter().map(|_| 1 + rng.below(20) as usize).collect();
+                build_hist(&sup, &cs)
+            };
+            let w = if learned { 3 } else { 8 };
+            let lo_a = rng.below((u / 4) as u64) as usize;
+            let mut a = blk(rng, lo_a, w);
+            let b = { // much heavier, at the other end
+                let sup: Vec<Abstraction> = (u - w..u).map(|k| uni[k]).collect();
+                build_hist(&sup, &vec![30 + r; w])
+            };
+            let c = blk(rng, u / 2 - w / 2, w);
+            // 1. measured on both sides, then absorbed into, then measured again
+            emd_case(run, tag, &a, &c, metric);
+            emd_case(run, tag, &c, &a, metric);
+            a.absorb(&b);
+            emd_case(run, tag, &a, &c, metric);
+            emd_case(run, tag, &c, &a, metric);
+            let fresh = { let cs = a.verif_counts(); build_hist(&cs.iter().map(|e| e.0).collect::<Vec<_>>(), &cs.iter().map(|e| e.1).collect::<Vec<_>>()) };
+            let d0 = emd_case(run, tag, &a, &fresh, metric);
+            run.spec_checked += 1;
+            if !learned && d0 != Some(0.0) {
+                run.fail("emd-after-absorb-not-zero-to-equal-copy", &format!("{} absorbed then compared with a fresh equal histogram", hist_str(&a)), "0", &format!("{d0:?}"));
+            }
+            // 2. clone of a measured histogram, then absorb into the clone
+            let mut a2 = a.clone();
+            a2.absorb(&c);
+            emd_case(run, tag, &a2, &c, metric);
+            emd_case(run, tag, &a, &a2, metric);
+            // 3. increment / set between two measurements
+            let mut a3 = c.clone();
+            emd_case(run, tag, &a3, &b, metric);
+            for _ in 0..(5 + r) { a3 = a3.increment(uni[rng.below(u as u64) as usize]); }
+            emd_case(run, tag, &a3, &b, metric);
+            emd_case(run, tag, &b, &a3, metric);
+            let mut a4 = a3.clone();
+            let newkey = uni.iter().find(|k| !a4.verif_counts().iter().any(|e| e.0 == **k));
+            if let Some(k) = newkey { a4.set(*k, 40 + r); }
+            emd_case(run, tag, &a4, &b, metric);
+            // 4. triangle through a histogram that was measured and then absorbed into
+            let lo = build_hist(&[uni[0]], &[10]);
+            let hi = build_hist(&[uni[u - 1]], &[10]);
+            let mut mid = build_hist(&[uni[0]], &[10]);
+            emd_case(run, tag, &lo, &mid, metric);
+            mid.absorb(&build_hist(&[uni[u - 1]], &[990]));
+            let via_clone = mid.clone();
+            let d = emd_case(run, tag, &lo, &hi, metric);
+            for via in [&mid, &via_clone] {
+                let d1 = emd_case(run, tag, &lo, via, metric);
+                let d2 = emd_case(run, tag, via, &hi, metric);
+                run.spec_checked += 1;
+                if let (Some(d), Some(d1), Some(d2)) = (d, d1, d2) {
+                    if !learned && d as f64 > d1 as f64 + d2 as f64 + 1e-6 {
+                        run.fail("emd-equity-triangle", &format!("lo={} via={} hi={} (via was measured, then absorbed into)", hist_str(&lo), hist_str(via), hist_str(&hi)), &format!("d(lo,hi) <= {d1} + {d2}"), &format!("{d}"));
+                    }
+                }
+            }
+        }
+    }
+}
+
+/// supports at the real maxima: 144 learned (turn) buckets on either side
+fn maxsize_suite(run: &mut Run, rng: &mut Rng, deep: bool) {
+    let k = Street::Turn.k();
+    let turn: Vec<Abstraction> = (0..k).map(|i| Abstraction::from((Street::Turn, i))).collect();
+    let pts: Vec<(f64, f64)> = (0..k).map(|_| (rng.unit(), rng.unit())).collect();
+    let mut raw = BTreeMap::new();
+    for i in 0..k { for j in 0..i {
+        raw.insert(Pair::from((&turn[i], &turn[j])), (((pts[i].0 - pts[j].0).powi(2) + (pts[i].1 - pts[j].1).powi(2)).sqrt()) as f32);
+    } }
+    let metric = Metric::from(raw);
+    let mut shapes: Vec<(usize, usize, bool)> = vec![(129, 15, true), (136, 8, true), (143, 1, true), (k, k, false), (15, k, true), (128, 20, false)];
+    if deep { shapes.extend([(130, 130, false), (k, 1, true), (140, 60, false), (1, k, true), (k, k, true)]); }
+    for (n, m, uniform) in shapes {
+        let sup_x = pick(rng, &turn, n);
+        let sup_y = pick(rng, &turn, m);
+        let cx = if uniform { vec![1usize; n] } else { gen_counts(rng, n).0 };
+        let cy = if uniform { vec![2usize; m] } else { gen_counts(rng, m).0 };
+        let (mu, nu) = (build_hist(&sup_x, &cx), build_hist(&sup_y, &cy));
+        sk_case(run, &format!("maxsize-{n}x{m}"), &mu, &nu, &metric, true);
+    }
+    // the greedy plan at full size
+    let (mu, nu) = (build_hist(&turn, &gen_counts(rng, k).0), build_hist(&turn, &gen_counts(rng, k).0));
+    greedy_case(run, "maxsize", &mu, &nu, &metric, false);
 }
 
 /// degenerate shapes that must be present in every tier, for every distance
